@@ -29,7 +29,7 @@ class Mode(LogMixin):
     __slots__ = ["machine", "config", "name", "path", "priority", "_active", "_starting", "_mode_start_wait_queue",
                  "stop_methods", "start_callback", "stop_callbacks", "event_handlers", "switch_handlers",
                  "mode_stop_kwargs", "mode_devices", "start_event_kwargs", "stopping", "delay", "player",
-                 "auto_stop_on_ball_end", "restart_on_next_ball", "asset_paths"]
+                 "auto_stop_on_ball_end", "restart_on_next_ball", "asset_paths", "_cleanup_pending"]
 
     # pylint: disable-msg=too-many-arguments
     def __init__(self, machine: "MachineController", config, name: str, path, asset_paths) -> None:
@@ -62,6 +62,7 @@ class Mode(LogMixin):
         self.mode_devices = set()               # type: Set[ModeDevice]
         self.start_event_kwargs = {}            # type: Dict[str, Any]
         self.stopping = False
+        self._cleanup_pending = False
 
         self.delay = DelayManager(self.machine)
         '''DelayManager instance for delays in this mode. Note that all delays
@@ -165,6 +166,11 @@ class Mode(LogMixin):
             self.debug_log("Mode already starting. Aborting start.")
             return
 
+        if self._cleanup_pending:
+            # restarted from a handler of our own mode_(name)_stopped event: finish the previous stop first.
+            # Otherwise its callback would later remove the handlers and devices of this new start.
+            self._mode_stopped_callback()
+
         self._starting = True
 
         self.machine.events.post('mode_{}_will_start'.format(self.name), **kwargs)
@@ -266,6 +272,11 @@ class Mode(LogMixin):
     def _mode_started_callback(self, **kwargs) -> None:
         """Handle result of mode_<name>_started queue event."""
         del kwargs
+        if not self._active:
+            # stopped again by a handler of mode_(name)_started. mode_stop() already ran.
+            self.start_event_kwargs = dict()
+            return
+
         self.mode_start(**self.start_event_kwargs)
 
         self.start_event_kwargs = dict()
@@ -348,6 +359,7 @@ class Mode(LogMixin):
         for event_name in self.config['mode']['events_when_stopped']:
             self.machine.events.post(event_name)
 
+        self._cleanup_pending = True
         self.machine.events.post('mode_' + self.name + '_stopped',
                                  callback=self._mode_stopped_callback)
         '''event: mode_(name)_stopped
@@ -376,6 +388,10 @@ class Mode(LogMixin):
 
     def _mode_stopped_callback(self, **kwargs) -> None:
         del kwargs
+        if not self._cleanup_pending:
+            return
+
+        self._cleanup_pending = False
 
         # Call the mode_stop() method before removing the devices
         self.mode_stop(**self.mode_stop_kwargs)
@@ -384,6 +400,10 @@ class Mode(LogMixin):
         # Clean up the mode handlers and devices
         self._remove_mode_event_handlers()
         self._remove_mode_devices()
+
+        # handlers of this mode may have added switch handlers or delays while it was stopping
+        self._remove_mode_switch_handlers()
+        self.delay.clear()
 
         for callback in self.stop_callbacks:
             callback()
